@@ -89,7 +89,8 @@ def gen_program(rng, opts=None):
     nrels = rng.range(3, 6)
     p = {"rels": [{"arity": rng.choice([1, 2, 2, 2, 3])} for _ in range(nrels)], "rules": []}
     nedb = rng.range(1, 2)
-    shape = rng.choice(["linear", "nonlinear", "mutual", "chain", "diamond", "mixed"])
+    shape = rng.choice(["linear", "nonlinear", "mutual", "chain", "diamond", "mixed", "sidehead"])
+    if opts.get("shape"): shape = opts.pop("shape")   # a shape forced by the caller's quota
     idb = list(range(nedb, nrels))
     def add(h, bs): p["rules"].append(gen_rule(rng, p, h, bs, dict(opts)))
     any_rel = lambda: rng.below(nrels)
@@ -104,12 +105,41 @@ def gen_program(rng, opts=None):
         for h in idb: add(h, [prev] + ([any_rel()] if rng.chance(1, 2) else [])); prev = h
     elif shape == "diamond" and len(idb) >= 3:
         e = rng.below(nedb); add(idb[0], [e]); add(idb[1], [e]); add(idb[2], [idb[0], idb[1]])
+    elif shape == "sidehead" and len(idb) >= 3:
+        # a recursive rule with TWO heads, one of them on a relation no rule of the recursive component reads, and a later stratum reading it
+        # (the side relation's rows must survive the exit of the loop; seeded change C01_r4_changed_only_if_head_read_in_scc)
+        h, u, w = idb[0], idb[1], idb[2]
+        e = rng.below(nedb)
+        add(h, [e])
+        if p["rels"][e]["arity"] >= 2 and rng.chance(3, 4):
+            # reachability along `e` (cycles in the input make the LAST productive iteration derive side tuples only)
+            are, arh, aru = p["rels"][e]["arity"], p["rels"][h]["arity"], p["rels"][u]["arity"]
+            body = [("cl", h, [("v", 0)] + [("v", 10 + j) for j in range(arh - 1)], []), ("cl", e, [("v", 0), ("v", 1)] + [("v", 20 + j) for j in range(are - 2)], [])]
+            p["rules"].append({"heads": [(h, [("var", 1)] * arh), (u, [("var", j % 2) for j in range(aru)])], "body": body})
+        else:
+            r = gen_rule(rng, p, h, [h, e], dict(opts)); r["heads"].append(extra_head(p, u, r)); p["rules"].append(r)
+        add(w, [u] + ([any_rel()] if rng.chance(1, 3) else []))
+    if shape == "sidehead" and len(idb) >= 3:
+        # further rules only derive the later relations: the side relation stays unread inside the recursive component
+        for _ in range(rng.range(0, 2)):
+            add(rng.choice(idb[2:]), [any_rel() for _ in range(rng.choice([1, 1, 2]))])
+        return p
     for _ in range(rng.range(1, 2)):
         p["rules"].append(template_rule(rng, p, idb))
     for _ in range(rng.range(1, 4)):
         nb = rng.choice([0, 1, 1, 2, 2, 3])
         add(rng.choice(idb) if rng.chance(5, 6) else any_rel(), [any_rel() for _ in range(nb)])
+    if rng.chance(1, 2):
+        # multi-head rules: `h1(..), h2(..) <-- body` (the MIR rule keeps both head clauses)
+        r = rng.choice(p["rules"])
+        if r["body"]: r["heads"].append(extra_head(p, rng.choice(idb), r))
     return p
+
+
+def extra_head(p, rel, rule):
+    """a further head clause on `rel` whose arguments are (already guarded) arguments of the rule's first head"""
+    hargs = rule["heads"][0][1]
+    return (rel, [hargs[j % len(hargs)] for j in range(p["rels"][rel]["arity"])])
 
 
 def template_rule(rng, p, idb):
